@@ -753,11 +753,23 @@ class _FakeRunpy:
 
     def run_module(self, mod_name, run_name=None, alter_sys=False):
         RT.kernel.log.append(("runpy", self.proc.pid, "module", mod_name))
-        return {}
+        return self._user_main()
 
     def run_path(self, path, run_name=None):
         RT.kernel.log.append(("runpy", self.proc.pid, "path", path))
-        return {}
+        return self._user_main()
+
+    def _user_main(self):
+        """the user's main module as re-imported in a child: optionally its import-time code performs a tracked
+        operation (creates a loky Lock kept in a module global)."""
+        run = RT.run
+        if run is None or not run.spec.get("main_tracked_op"):
+            return {}
+        from loky.backend import get_context          # this process's own module copies
+        lk = get_context("loky").Lock()
+        trk = sys.modules["loky.backend.resource_tracker"]._resource_tracker
+        run.obs.notes.append(("main-import-tracker", self.proc.pid, trk._pid))
+        return {"module_level_lock": lk}
 
 
 class _StubMpTracker:
